@@ -19,12 +19,34 @@
 (*             per-call implementation would use (SharedCounter = FALSE)   *)
 (*   cancelled, why   the context is done, and how ("cancel"/"deadline")   *)
 (*   since     dispatches since the context became done                    *)
-(*   ps        program state: phase, stack of contexts, waiting, printed   *)
+(*   ps        program state: phase, stack of contexts, waiting, and per   *)
+(*             destination the lines printed and the lines still pending   *)
+(*             in a buffer; lastret = what the wait that just completed    *)
+(*             handed to the program                                       *)
 (*   bs        program state of the context-free machine run in lock step  *)
 (*   atCancel  snapshot [printed, ops] taken by CancelNow                  *)
 (*   result    "running", "ok", "error", "ctxerr"; errId = which context   *)
-(*             error was returned; delivered = lines that reached          *)
-(*             Config.Output when the call returned                        *)
+(*             error was returned; delivered = per destination the lines   *)
+(*             that had reached it when the call returned                  *)
+(*                                                                         *)
+(* Destinations of print (Dests): "direct" = standard output, Config.      *)
+(* Output being a writer without a buffer of its own; "buffered" = standard*)
+(* output, Config.Output having a Flush method (a *bufio.Writer; nil =     *)
+(* buffered os.Stdout) -- the interpreter flushes it when a call returns,  *)
+(* that is how the default output works at all; "file" = print > "f";      *)
+(* "cmd" = print | "command".  All but "direct" hold lines back: a printed *)
+(* line is pending until the buffer fills (BufferFull) or the call ends    *)
+(* and closes / flushes everything (closeAll).  "Everything printed before *)
+(* that point has been delivered" is DeliveredBefore, for every            *)
+(* destination, also when fewer than a buffer-full is pending.             *)
+(*                                                                         *)
+(* Children end in one of Outcomes: exit status 0, another exit status,    *)
+(* killed by a signal, or the wait itself fails (os/exec: a descendant of  *)
+(* the shell keeps the inherited output open past WaitDelay).  system()    *)
+(* and close() then hand the program 0 / the status / 256+signal / -1 with *)
+(* a diagnostic on the error stream -- under Execute and under             *)
+(* ExecuteContext alike as long as the context is not done (Invisible      *)
+(* compares lastret of the two machines).                                  *)
 (***************************************************************************)
 EXTENDS Integers, Sequences, TLC
 
@@ -34,23 +56,37 @@ CONSTANTS CheckEvery,      \* 3 in the model, checkContextOps = 1000 in the code
           MaxRecords,      \* bound on records of the main loop
           SharedCounter,   \* TRUE: the code; FALSE: a per-execute counter (mutant)
           PreferCtxErr,    \* TRUE: executeAll reports the context error over a secondary one
-          FlushOnCtxErr    \* TRUE: closeAll runs (deferred) also when the context error is returned
+          FlushOnCtxErr,   \* TRUE: closeAll runs (deferred) also when the context error is returned
+          WaitErrChecksDone, \* TRUE: a failed wait counts as the context's doing only when the context is done
+          Outcomes,        \* how a child that ends by itself can end: subset of AllOutcomes
+          PrintKinds       \* the print instructions programs are built from: subset of PrintInstrs
 
 VARIABLES useCtx, ops, cancelled, why, since, ps, bs, atCancel, result, errId, delivered
 vars == <<useCtx, ops, cancelled, why, since, ps, bs, atCancel, result, errId, delivered>>
 
 CtxKinds  == {"begin", "pattern", "action", "func", "forin", "end"}
 WaitKinds == {"system", "piperead", "pipeclose", "pipewrite"}
-Instrs    == {"plain", "print", "call", "forin", "ret", "fail"} \cup WaitKinds
+Dests     == {"direct", "buffered", "file", "cmd"}
+PrintInstrs == {"pr_direct", "pr_buffered", "pr_file", "pr_cmd"}
+DestOf(ins) == CASE ins = "pr_direct" -> "direct" [] ins = "pr_buffered" -> "buffered" [] ins = "pr_file" -> "file" [] ins = "pr_cmd" -> "cmd"
+Instrs    == {"plain", "call", "forin", "ret", "fail"} \cup PrintKinds \cup WaitKinds
+AllOutcomes == {"zero", "nonzero", "signal", "waitfail"}
+\* what system() / close() hand to the program: "fail" is -1 together with a diagnostic on the error stream;
+\* "absent" is no value and no diagnostic at all (only with WaitErrChecksDone = FALSE)
+RetOf(oc) == CASE oc = "zero" -> "zero" [] oc = "nonzero" -> "status" [] oc = "signal" -> "signal" [] oc = "waitfail" -> "fail"
+WaitsForExit == {"system", "pipeclose"}     \* the instructions that wait for the child and report how it ended
 
+Zero == [d \in Dests |-> 0]
+Total(f) == f["direct"] + f["buffered"] + f["file"] + f["cmd"]
 Frame(kind) == [kind |-> kind, own |-> 0]
-PsInit == [phase |-> "begin", stack |-> <<Frame("begin")>>, waiting |-> "none", printed |-> 0, recs |-> 0]
+PsInit == [phase |-> "begin", stack |-> <<Frame("begin")>>, waiting |-> "none", printed |-> Zero, pending |-> Zero,
+           lastret |-> "none", recs |-> 0]
 
 Init == /\ useCtx \in BOOLEAN
         /\ ops = 0 /\ cancelled \in {FALSE} /\ why = "none" /\ since = 0
         /\ ps = PsInit /\ bs = PsInit
-        /\ atCancel = [printed |-> 0, ops |-> 0]
-        /\ result = "running" /\ errId = "none" /\ delivered = 0
+        /\ atCancel = [printed |-> Zero, ops |-> 0]
+        /\ result = "running" /\ errId = "none" /\ delivered = Zero
 
 Running == result = "running"
 Top(s)  == s.stack[Len(s.stack)]
@@ -60,11 +96,17 @@ Push(s, kind) == [s EXCEPT !.stack = Append(@, Frame(kind))]
 \* ---- the program: effect of one executed instruction on the program state
 CanExec(s, ins) ==
   /\ s.stack # <<>> /\ s.waiting = "none"
-  /\ ins = "print" => s.printed < MaxPrint
+  /\ ins \in PrintInstrs => Total(s.printed) < MaxPrint
+  /\ ins = "pr_direct" => s.printed["buffered"] = 0      \* one call has one Config.Output
+  /\ ins = "pr_buffered" => s.printed["direct"] = 0
   /\ ins \in {"call", "forin"} => Len(s.stack) < MaxDepth
-Exec(s, ins) ==
+\* (the value a completed wait handed over is used up by the next instruction)
+Exec(s0, ins) ==
+  LET s == [s0 EXCEPT !.lastret = "none"] IN
   CASE ins = "plain" -> s
-    [] ins = "print" -> [s EXCEPT !.printed = @ + 1]
+    [] ins \in PrintInstrs ->
+         [s EXCEPT !.printed[DestOf(ins)] = @ + 1,
+                   !.pending[DestOf(ins)] = IF ins = "pr_direct" THEN @ ELSE @ + 1]
     [] ins = "call"  -> Push(s, "func")
     [] ins = "forin" -> Push(s, "forin")
     [] ins = "ret"   -> Pop(s)              \* end of the code block of the innermost context
@@ -79,7 +121,8 @@ PollsNow == useCtx /\ Counter + 1 = CheckEvery
 Finish(res) ==
   /\ result' = res
   /\ errId' = IF res = "ctxerr" THEN why ELSE "none"
-  /\ delivered' = IF res = "ctxerr" /\ ~FlushOnCtxErr THEN delivered ELSE ps.printed
+  \* closeAll closes every file and command stream and flushes standard output: nothing stays pending
+  /\ delivered' = IF res = "ctxerr" /\ ~FlushOnCtxErr THEN [d \in Dests |-> ps.printed[d] - ps.pending[d]] ELSE ps.printed
 
 \* One iteration of the dispatch loop: count, maybe poll, execute.
 Dispatch(ins) ==
@@ -96,7 +139,8 @@ Dispatch(ins) ==
           /\ Finish(IF useCtx /\ cancelled /\ PreferCtxErr THEN "ctxerr" ELSE "error")
           /\ ps' = [ps EXCEPT !.stack = <<>>]
           /\ bs' = [bs EXCEPT !.stack = <<>>]
-     ELSE /\ ps' = Exec([ps EXCEPT !.stack = IF useCtx THEN Tick(@) ELSE @], ins)
+     ELSE \* (the per-frame counters exist only in the variant: with the shared counter they would just multiply states)
+          /\ ps' = Exec([ps EXCEPT !.stack = IF useCtx /\ ~SharedCounter THEN Tick(@) ELSE @], ins)
           /\ bs' = IF cancelled THEN bs ELSE Exec(bs, ins)
           /\ UNCHANGED <<result, errId, delivered>>
   /\ UNCHANGED <<useCtx, cancelled, why, atCancel>>
@@ -129,11 +173,26 @@ CancelNow ==
   /\ atCancel' = [printed |-> ps.printed, ops |-> Counter]
   /\ UNCHANGED <<useCtx, ops, ps, bs, result, errId, delivered>>
 
-\* a child process ends by itself: the blocked instruction completes
+\* a buffer fills up and is written out (or the program calls fflush): nothing of that destination stays pending
+BufferFull ==
+  /\ Running
+  /\ \E d \in Dests \ {"direct"} :
+       /\ ps.pending[d] > 0
+       /\ ps' = [ps EXCEPT !.pending[d] = 0]
+       /\ bs' = IF cancelled THEN bs ELSE [bs EXCEPT !.pending[d] = 0]
+  /\ UNCHANGED <<useCtx, ops, cancelled, why, since, atCancel, result, errId, delivered>>
+
+\* a child process ends by itself: the blocked instruction completes; system() and close() report how it ended.
+\* The context plays no part in that as long as it is not done.
 ChildDone ==
   /\ Running /\ ps.waiting # "none"
-  /\ ps' = [ps EXCEPT !.waiting = "none"]
-  /\ bs' = IF cancelled THEN bs ELSE [bs EXCEPT !.waiting = "none"]
+  /\ \E oc \in (IF ps.waiting \in WaitsForExit THEN Outcomes ELSE {"zero"}) :
+       LET ret == IF ps.waiting \in WaitsForExit THEN RetOf(oc) ELSE "none"
+           \* the variant: under ExecuteContext any failed wait of system() is taken for the context's doing; the
+           \* context not being done there is no error to return, and the program goes on without value or diagnostic
+           cret == IF ~WaitErrChecksDone /\ useCtx /\ ps.waiting = "system" /\ oc = "waitfail" THEN "absent" ELSE ret
+       IN /\ ps' = [ps EXCEPT !.waiting = "none", !.lastret = cret]
+          /\ bs' = IF cancelled THEN bs ELSE [bs EXCEPT !.waiting = "none", !.lastret = ret]
   /\ UNCHANGED <<useCtx, ops, cancelled, why, since, atCancel, result, errId, delivered>>
 \* CommandContext kills the child of a done context; system() then returns the context's error at once
 \* (or, when Wait reports a plain "killed by signal" status, the status), getline / close return to the
@@ -149,7 +208,7 @@ ChildKilled ==
   /\ UNCHANGED <<useCtx, ops, cancelled, why, since, bs, atCancel>>
 
 Step == \E ins \in Instrs : Dispatch(ins)
-Next == Step \/ NextRecord \/ LeaveBegin \/ EnterEnd \/ FinishOk \/ CancelNow \/ ChildDone \/ ChildKilled
+Next == Step \/ NextRecord \/ LeaveBegin \/ EnterEnd \/ FinishOk \/ CancelNow \/ ChildDone \/ ChildKilled \/ BufferFull
 
 \* progress of the interpreter and of the operating system (not of the program: it may loop for ever)
 Fairness == WF_vars(Step) /\ WF_vars(ChildKilled) /\ WF_vars(NextRecord \/ LeaveBegin \/ EnterEnd \/ FinishOk)
@@ -169,13 +228,14 @@ NoSpuriousCtxErr == result = "ctxerr" => (useCtx /\ cancelled)
 \* context.Canceled for a cancelled context, context.DeadlineExceeded for an expired one
 RightIdentity == (result = "ctxerr" => errId = why) /\ (result # "ctxerr" => errId = "none")
 
-\* everything printed (before the cancellation, and altogether) has been delivered when the call returns
+\* everything printed (before the cancellation, and altogether) has been delivered when the call returns,
+\* whatever the destination and however little of it is pending
 Delivered == ~Running => delivered = ps.printed
-DeliveredBefore == ~Running => delivered >= atCancel.printed
+DeliveredBefore == ~Running => \A d \in Dests : delivered[d] >= atCancel.printed[d]
 
 \* a context that is never cancelled is invisible: same program state as the context-free machine
 ViewOf(s) == [phase |-> s.phase, kinds |-> [j \in 1..Len(s.stack) |-> s.stack[j].kind], waiting |-> s.waiting,
-              printed |-> s.printed, recs |-> s.recs]
+              printed |-> s.printed, pending |-> s.pending, lastret |-> s.lastret, recs |-> s.recs]
 Invisible == ~cancelled => ViewOf(ps) = ViewOf(bs)
 
 \* exact count of the shared-counter implementation (information for the harness, not demanded of the code)
